@@ -354,89 +354,148 @@ def run_impl(case: dict) -> List[str]:
 
 
 # ------------------------------------------------------------------------------------------ generation
-def gen_case(rng: Rng, max_ops: int = 40) -> dict:
+PROFILES = ["mixed", "mixed", "capacity", "damage", "faults", "lifecycle", "red"]
+BASE_W = {"connect": 16, "hq": 18, "rq": 7, "rd": 3, "hd": 6, "nc": 3, "nq": 5, "nd": 2, "ex": 5, "un": 2, "in": 2, "run": 3,
+          "close": 2, "cpw": 4, "rs": 4, "svc": 10, "spw": 2, "backup": 4, "restore": 6, "fdel": 1, "fcor": 2, "frep": 2, "pow": 4,
+          "ftps": 2, "blk": 5, "tick": 12}
+PROFILE_W = {
+    "mixed": {},
+    "capacity": {"connect": 40, "hd": 14, "nd": 4, "svc": 6, "restore": 8, "nc": 6},
+    "damage": {"hq": 30, "backup": 8, "restore": 12, "fdel": 3, "fcor": 4, "frep": 4, "tick": 14, "svc": 12, "rs": 8},
+    "faults": {"pow": 12, "blk": 14, "ftps": 5, "tick": 20, "un": 4, "in": 4, "close": 4, "run": 5},
+    "lifecycle": {"svc": 30, "tick": 20, "cpw": 8, "spw": 5},
+    "red": {"rs": 20, "rq": 14, "rd": 8, "restore": 10, "tick": 14},
+}
+
+
+def gen_setup(rng: Rng) -> dict:
     n = rng.choice([1, 2, 2, 3, 3, 4])
     srv_pw = rng.choice([None, None, 1, 2])
     clients = []
     for _ in range(n):
-        good = rng.chance(3, 4)
+        good = rng.chance(4, 5)
         clients.append({"pw": srv_pw if good else rng.choice([None, 1, 2, 3]),
-                        "rs": rng.chance(1, 3), "rs_pw": srv_pw if rng.chance(3, 4) else rng.choice([None, 1, 3])})
-    case = {"max": rng.choice([1, 2, 2, 3, 3, 4, 100]), "fix": rng.choice([0, 1, 2, 2, 3]), "restart": rng.choice([0, 1, 2, 5]),
+                        "rs": rng.chance(1, 2), "rs_pw": srv_pw if rng.chance(4, 5) else rng.choice([None, 1, 3])})
+    return {"max": rng.choice([1, 2, 2, 3, 3, 4, 100]), "fix": rng.choice([0, 1, 2, 2, 3]), "restart": rng.choice([0, 1, 2, 5]),
             "durs": {"sUp": rng.choice([0, 1, 2]), "sDown": rng.choice([1, 2]), "bUp": rng.choice([0, 1, 2]), "bDown": rng.choice([1, 2]),
                      "cUp": rng.choice([0, 1, 2]), "cDown": rng.choice([1, 2])},
             "srv_pw": srv_pw, "clients": clients, "ops": []}
-    ops = case["ops"]
-    nh = 0   # upper estimate of handles created
-    nid = 0  # upper estimate of ids issued
-    pws = [None, 1, 2, 3]
-    sqls = ["SELECT", "SELECT", "DELETE", "ENCRYPT", "INSERT", "PGSTAT", "OTHER"]
-    profile = rng.choice(["mixed", "mixed", "capacity", "damage", "faults", "lifecycle"])
-    W = {"connect": 18, "hq": 18, "rq": 7, "rd": 3, "hd": 6, "nc": 3, "nq": 5, "nd": 2, "ex": 5, "un": 2, "in": 2, "run": 3,
-         "close": 2, "cpw": 4, "rs": 4, "svc": 10, "spw": 2, "backup": 4, "restore": 6, "fdel": 1, "fcor": 2, "frep": 2, "pow": 4,
-         "ftps": 2, "blk": 5, "tick": 12}
-    if profile == "capacity":
-        W.update({"connect": 40, "hd": 14, "nd": 4, "svc": 6, "restore": 8})
-    elif profile == "damage":
-        W.update({"hq": 30, "backup": 8, "restore": 12, "fdel": 3, "fcor": 4, "frep": 4, "tick": 14, "svc": 12, "rs": 8})
-    elif profile == "faults":
-        W.update({"pow": 12, "blk": 14, "ftps": 5, "tick": 20, "un": 4, "in": 4, "close": 4, "run": 5})
-    elif profile == "lifecycle":
-        W.update({"svc": 30, "tick": 20, "cpw": 8, "spw": 5})
-    keys = list(W)
-    total = sum(W.values())
 
-    def pick():
-        x = rng.below(total)
-        for kk in keys:
-            x -= W[kk]
-            if x < 0:
-                return kk
-        return keys[-1]
-    for _ in range(rng.range(5, max_ops)):
-        k = pick()
-        i = rng.below(n)
-        if k == "connect":
-            ops.append(["connect", i]); nh += 1; nid += 1
-        elif k == "hq":
-            ops.append(["hq", rng.below(nh + 1) if nh else 0, rng.choice(sqls)])
-        elif k == "rq":
-            cid = None if (nid == 0 or rng.chance(1, 3)) else rng.below(nid)
-            ops.append(["rq", i, cid, rng.choice(sqls)])
-        elif k == "rd":
-            ops.append(["rd", i, None if nid == 0 or rng.chance(1, 4) else rng.below(nid)])
-        elif k == "hd":
-            ops.append(["hd", rng.below(nh + 1) if nh else 0])
-        elif k == "nc":
-            ops.append(["nc", i]); nh += 1; nid += 1
-        elif k == "nq":
-            ops.append(["nq", i, rng.choice(sqls)])
-        elif k == "nd":
-            ops.append(["nd", i])
-        elif k == "ex":
-            ops.append(["ex", i]); nh += 1; nid += 1
-        elif k in ("un", "in", "run", "close"):
-            ops.append([k, i])
-        elif k == "cpw":
-            ops.append(["cpw", i, case["srv_pw"] if rng.chance(1, 2) else rng.choice(pws)])
-        elif k == "rs":
-            ops.append(["rs", i, rng.choice(["ENCRYPT", "ENCRYPT", "DELETE"])]); nh += 1; nid += 1
-        elif k == "svc":
-            ops.append(["svc", rng.choice(SVC_REQS + ["fix", "start", "stop"])])
-        elif k == "spw":
-            case_pw = rng.choice(pws)
-            ops.append(["spw", case_pw])
-        elif k in ("backup", "restore", "fdel", "fcor", "frep", "tick"):
-            ops.append([k])
-            if k == "tick" and rng.chance(1, 3):
-                ops.append(["tick"])
-        elif k == "pow":
-            ops.append(["pow", rng.choice([0, 0, 1, 2 + i]), rng.chance(1, 2)])
-        elif k == "ftps":
-            ops.append(["ftps", rng.chance(1, 2)])
-        elif k == "blk":
-            ops.append(["blk", rng.choice([0, 1, 2 + 2 * i, 3 + 2 * i]), rng.chance(3, 5)])
-    return case
+
+def next_op(rng: Rng, w: "World", case: dict, W: dict, total: int) -> list:
+    """Choose the next operation looking at the live world, so that most operations are meaningful (existing handles,
+    issued ids, a power-on after a power-off ...), with a minority of deliberately invalid ones."""
+    from primaite.simulator.network.hardware.node_operating_state import NodeOperatingState as NOS
+    n = len(case["clients"])
+    nh, nid = len(w.rec.handles), len(w.rec.ids)
+    sqls = ["SELECT", "SELECT", "DELETE", "ENCRYPT", "INSERT", "PGSTAT", "OTHER"]
+    pws = [None, 1, 2, 3]
+    # repair bias: something is off / stopped / blocked -> often undo it
+    if rng.chance(1, 4):
+        fixes = []
+        for who, node in [(0, w.srv), (1, w.bk)] + [(2 + k, c) for k, c in enumerate(w.clients)]:
+            if node.operating_state == NOS.OFF:
+                fixes.append(["pow", who, True])
+            elif node.operating_state in (NOS.BOOTING, NOS.SHUTTING_DOWN):
+                fixes.append(["tick"])
+        st = w.db.operating_state.name
+        if w.srv.operating_state == NOS.ON:
+            fixes += {"STOPPED": [["svc", "start"]], "PAUSED": [["svc", "resume"]], "DISABLED": [["svc", "enable"]],
+                      "RESTARTING": [["tick"]]}.get(st, [])
+            if w.db.health_state_actual.name == "FIXING":
+                fixes.append(["tick"])
+            if w.db.health_state_actual.name in ("OVERWHELMED", "COMPROMISED"):
+                fixes += [["restore"], ["svc", "compromise"], ["svc", "fix"]]
+        for pos in range(2 + 2 * n):
+            if w.router.acl.acl[pos] is not None:
+                fixes.append(["blk", pos, False])
+        for k in range(n):
+            dc = w.dc(k)
+            if dc is None:
+                fixes.append(["in", k])
+            elif dc.operating_state.name != "RUNNING":
+                fixes.append(["run", k])
+        if fixes:
+            return rng.choice(fixes)
+    x = rng.below(total)
+    k = None
+    for kk, wt in W.items():
+        x -= wt
+        if x < 0:
+            k = kk
+            break
+    i = rng.below(n)
+    wild = rng.chance(1, 10)  # deliberately out-of-range / stale references
+    if k == "connect":
+        return ["connect", i]
+    if k == "hq":
+        act = [j for j, h in enumerate(w.rec.handles) if h.is_active]
+        h = rng.choice(act) if act and not wild else rng.below(nh + 2)
+        return ["hq", h, rng.choice(sqls)]
+    if k == "rq":
+        live = [w.rec.ids.index(c) for c in w.db._connections if c in w.rec.ids]
+        if wild or not nid:
+            cid = None if rng.chance(1, 2) else rng.below(nid + 3)
+        elif live and rng.chance(2, 3):
+            cid = rng.choice(live)      # a live id, possibly another client's
+        else:
+            cid = rng.below(nid)        # possibly closed
+        return ["rq", i, cid, rng.choice(sqls)]
+    if k == "rd":
+        live = [w.rec.ids.index(c) for c in w.db._connections if c in w.rec.ids]
+        return ["rd", i, rng.choice(live) if live and not wild else (None if not nid else rng.below(nid + 1))]
+    if k == "hd":
+        act = [j for j, h in enumerate(w.rec.handles) if h.is_active]
+        return ["hd", rng.choice(act) if act and not wild else rng.below(nh + 2)]
+    if k in ("nc", "nd", "ex", "un", "in", "run", "close"):
+        return [k, i]
+    if k == "nq":
+        return ["nq", i, rng.choice(sqls)]
+    if k == "cpw":
+        return ["cpw", i, pw_int(w.db.password) if rng.chance(2, 3) else rng.choice(pws)]
+    if k == "rs":
+        with_rs = [j for j, c in enumerate(case["clients"]) if c["rs"]]
+        return ["rs", rng.choice(with_rs) if with_rs and not wild else i, rng.choice(["ENCRYPT", "ENCRYPT", "DELETE", "SELECT"])]
+    if k == "svc":
+        return ["svc", rng.choice(SVC_REQS + ["fix", "start", "stop", "compromise"])]
+    if k == "spw":
+        return ["spw", rng.choice(pws)]
+    if k in ("backup", "restore", "fdel", "fcor", "frep", "tick"):
+        return [k]
+    if k == "pow":
+        return ["pow", rng.choice([0, 0, 1, 2 + i]), rng.chance(1, 3)]
+    if k == "ftps":
+        return ["ftps", w.bk.software_manager.software["ftp-server"].operating_state.name != "RUNNING" or wild]
+    if k == "blk":
+        return ["blk", rng.choice([0, 1, 2 + 2 * i, 3 + 2 * i]), rng.chance(2, 3)]
+    raise AssertionError(k)
+
+
+def pw_int(p: Optional[str]) -> Optional[int]:
+    return None if p is None else int(p[2:])
+
+
+def gen_and_run(rng: Rng, max_ops: int = 40):
+    """Generate a case op by op against the live implementation. Returns (case, impl answers)."""
+    case = gen_setup(rng)
+    profile = rng.choice(PROFILES)
+    W = dict(BASE_W)
+    W.update(PROFILE_W[profile])
+    total = sum(W.values())
+    case["profile"] = profile
+    rec = Rec()
+    out = ["ok", "ok"] + ["ok"] * len(case["clients"])
+    with instrumented(rec):
+        w = World(case, rec)
+        for _ in range(rng.range(6, max_ops)):
+            op = next_op(rng, w, case, W, total)
+            case["ops"].append(op)
+            try:
+                out.append(w.do(op))
+            except Exception as e:  # noqa: BLE001
+                out.append(f"raised {type(e).__name__}: {str(e)[:120]}")
+                break
+    return case, out
 
 
 def nontrivial(model: List[str]) -> bool:
